@@ -56,6 +56,12 @@ ASSUMPTIONS = [
     "ophyd.Signal delivers subscriptions synchronously in the putting thread and replays the last published value on subscribe(run=True)",
 ]
 
+import logging  # noqa: E402
+
+for _n in ("ophyd", "bluesky", "asyncio"):
+    logging.getLogger(_n).addHandler(logging.NullHandler())
+    logging.getLogger(_n).propagate = False
+
 SUS_CLASSES = {
     "BoolHigh": {"trip": [1], "ok": [0], "neutral": []},
     "BoolLow": {"trip": [0], "ok": [1], "neutral": []},
@@ -598,6 +604,8 @@ def check_case(case):
         if c is None:
             executed_all = False
             break
+        if op["windows"][0] and not model.gating():
+            raise HarnessError("generator bug: gate-window ops on a call that is not gated (they would race with the plan)")
         gating = c["gating_observed"]
         if gating != model.gating():
             res.classes.append("gating_differs_from_model(C30)")
@@ -792,7 +800,10 @@ def sweep_cases(quick):
                         ww = [dict(o, settle=False) if not settle and o["do"] != "install" else o for o in w]
                         for with_run in (False, True):
                             nm = f"sweep:{cls}:running:{wname}:{'settled' if settle else 'unsettled'}"
-                            yield _case(nm, sus, [I(0), CALL(2, [[], ww, []], with_run), P(0, t), CALL(0, [[P(0, ok)]])])
+                            hist = [I(0), CALL(2, [[], ww, []], with_run)]
+                            if w[-1]["do"] == "remove" or (wname in ("remove_trip", "trip_remove_remove_trip")):
+                                hist.append(I(0))  # left removed by the window: install again, then a gated call
+                            yield _case(nm, sus, hist + [P(0, t), CALL(0, [[P(0, ok)]])])
     # two suspenders on two signals, both gating; released one after the other in both orders and by different means
     for a, b in (("ok", "remove"), ("remove", "ok"), ("ok", "ok"), ("remove", "remove")):
         sus = [{"cls": "BoolHigh", "sig": 0, "sleep": 0}, {"cls": "Floor", "sig": 1, "sleep": 0.5}]
